@@ -1417,6 +1417,20 @@ func (e *Engine) callFn(s *State, f *Frame, fn *ssa.Function, args []Val, bind [
 	case name == "vsSameMap":
 		f.env[x] = eq(args[0].(MapV).Ref, args[1].(MapV).Ref)
 		return true
+	case name == "vsOffsetOf": // generic OffsetIn, in elements
+		a, b := args[0].(SliceV), args[1].(SliceV)
+		inside := and(eq(a.Ref, b.Ref), refPos(a.Ref), ile(b.Off, a.Off), ile(a.Off, iadd(b.Off, b.Cap)))
+		f.env[x] = e.name(s, ite(inside, e.binop(s, token.SUB, a.Off, b.Off, types.Typ[types.Int]), intT(-1)))
+		return true
+	case name == "vsDisjointOf": // generic Disjoint
+		a, b := args[0].(SliceV), args[1].(SliceV)
+		f.env[x] = e.name(s, or(not(eq(a.Ref, b.Ref)), ile(iadd(a.Off, a.Cap), b.Off), ile(iadd(b.Off, b.Cap), a.Off)))
+		return true
+	case name == "vsOffsetIn": // where sub starts inside whole's backing array (-1: it does not point into it)
+		a, b := args[0].(SliceV), args[1].(SliceV)
+		inside := and(eq(a.Ref, b.Ref), refPos(a.Ref), ile(b.Off, a.Off), ile(a.Off, iadd(b.Off, b.Cap)))
+		f.env[x] = e.name(s, ite(inside, e.binop(s, token.SUB, a.Off, b.Off, types.Typ[types.Int]), intT(-1)))
+		return true
 	case name == "vsDisjoint": // backing ranges [off, off+cap) of two slices do not overlap
 		a, b := args[0].(SliceV), args[1].(SliceV)
 		f.env[x] = e.name(s, or(not(eq(a.Ref, b.Ref)), ile(iadd(a.Off, a.Cap), b.Off), ile(iadd(b.Off, b.Cap), a.Off)))
